@@ -82,7 +82,7 @@ func (t *simTransport) WriteTo(b []byte, addr string) (time.Time, error) {
 	dst := sn.nodes[addr]
 	atomic.AddInt64(&sn.sent, 1)
 	drop := dst == nil || dst.down.Load() || t.down.Load() || sn.blocked[[2]string{t.addr, addr}] || sn.r.intn(100) < sn.loss
-	if !drop && sn.dropAccusations && len(b) > 0 && (b[0] == 3 || b[0] == 5 || (b[0] == 7 && containsAccusation(b))) {
+	if !drop && sn.dropAccusations && containsAccusation(b) {
 		drop = true
 	}
 	ndup := 1
@@ -115,13 +115,32 @@ func (t *simTransport) WriteTo(b []byte, addr string) (time.Time, error) {
 	return now, nil
 }
 
-// containsAccusation: does a compound packet carry a suspect or dead part (plaintext runs only)?
-func containsAccusation(b []byte) bool {
-	_, parts, err := ml.VerifDecodeCompoundMessage(b[1:])
-	if err != nil {
-		return false
+// simParts splits a plaintext packet into its leaf messages: the checksum header (peers speaking
+// protocol version 5) is stripped and compound messages are expanded, recursively.
+func simParts(b []byte) [][]byte {
+	if len(b) >= 5 && b[0] == 12 {
+		b = b[5:]
 	}
-	for _, p := range parts {
+	if len(b) == 0 {
+		return nil
+	}
+	if b[0] == 7 {
+		_, parts, err := ml.VerifDecodeCompoundMessage(b[1:])
+		if err != nil {
+			return nil
+		}
+		var out [][]byte
+		for _, p := range parts {
+			out = append(out, simParts(p)...)
+		}
+		return out
+	}
+	return [][]byte{b}
+}
+
+// containsAccusation: does a packet carry a suspect or dead message (plaintext runs only)?
+func containsAccusation(b []byte) bool {
+	for _, p := range simParts(b) {
 		if len(p) > 0 && (p[0] == 3 || p[0] == 5) {
 			return true
 		}
